@@ -140,7 +140,11 @@ TCEnd == /\ Is("cend") /\ cstage = "mid" /\ Ev.ok /\ Snap(CNames) = cv
 
 \* decoding a frame naming dictionary fid: accepted iff the decoder holds that dictionary (or the frame names none)
 TDFrame == /\ Is("dframe") /\ dstage = "init" /\ Snap(DNames) = dv
-           /\ Ev.have = 1 => (Ev.ok <=> (Ev.fid = 0 \/ Ev.fid = ddict))
+           \* a frame that names a dictionary decodes iff that dictionary is loaded; a frame that names none (dictIDFlag = 0, or no
+           \* dictionary) must decode when the compressor had no dictionary or the decoder holds the same one - without the
+           \* dictionary it was made with, nothing is promised
+           /\ Ev.have = 1 => /\ (Ev.fid # 0) => (Ev.ok <=> Ev.fid = ddict)
+                             /\ (Ev.fid = 0 /\ (cdict = 0 \/ cdict = ddict)) => Ev.ok
            /\ UNCHANGED <<cv, pv, dv, cstage, dstage, cdict, ddict>>
 TDBegin == /\ Is("dbegin") /\ Ev.ok /\ Snap(DNames) = dv /\ dstage' = "mid" /\ UNCHANGED <<cv, pv, dv, cstage, cdict, ddict>>
 TDFail == /\ Is("dfail") /\ ~Ev.ok /\ Snap(DNames) = dv /\ dstage' = "err" /\ UNCHANGED <<cv, pv, dv, cstage, cdict, ddict>>
